@@ -110,6 +110,10 @@ class CMSys(E1):
     def ests(self, sk, uni):
         return {k: float(sk.query(k)) for k in uni}
 
+    def at_ceiling(self, sk, key):
+        top = int(sk.uint_maxval)
+        return self.min_counter(sk, key) == top
+
     def min_counter(self, sk, key):
         ck = self.cols(key)
         return min(int(sk.cms[r, ck[r]]) for r in range(self.depth))
@@ -127,6 +131,7 @@ class CMSys(E1):
             pre_tab = sk.cms.copy()
             pre_n = int(sk.n_added())
             pre_c = self.min_counter(sk, ev[2]) if op == "add" else None
+            was_top = {j for j in uni if self.at_ceiling(sk, j)}
         if op == "add":
             _, s, k, v, dr = ev
             if self.is_log:
@@ -145,6 +150,14 @@ class CMSys(E1):
             work[s].merge(work[t])
             for k, v in m[t].items():
                 m[s][k] = m[s].get(k, 0) + v
+        elif op == "set":
+            # harness-made start state: key's cells are written directly (used only in
+            # extra_init lists, e.g. a log16 counter 3 below its ceiling)
+            _, s, k, cval, tval = ev
+            ck = self.cols(k)
+            for r in range(self.depth):
+                work[s].cms[r, ck[r]] = cval
+            m[s][k] = m[s].get(k, 0) + tval
         elif op == "saveload":
             before = capture(work[s], self.skip)
             hit = self._sl_cache.get(before)
@@ -162,11 +175,15 @@ class CMSys(E1):
         if need_pre:
             sk = work[s]
             post = self.ests(sk, uni)
-            if "mono" in self.modes:
+            if "mono" in self.modes and op != "set":
                 for j in uni:
                     if post[j] < pre[j]:
                         probs.append(
                             f"sketch {s}: {op} lowered the estimate of {j!r} from {pre[j]} to {post[j]}"
+                        )
+                    if j in was_top and not self.at_ceiling(sk, j):
+                        probs.append(
+                            f"sketch {s}: {op} moved {j!r} off its ceiling: {pre[j]} -> {post[j]}"
                         )
             if "edge" in self.modes and op == "add":
                 probs += self.edge_add(sk, s, ev, pre, post, pre_tab, pre_n, pre_c)
